@@ -161,7 +161,13 @@ impl BaseBandModulationParams {
         };
 
         const fn div_ceil(num: i32, denom: i32) -> i32 {
-            (num - 1) / denom + 1
+            // `denom` is always positive here; integer division truncates towards
+            // zero, which already is the ceiling for a non-positive numerator
+            if num > 0 {
+                (num - 1) / denom + 1
+            } else {
+                num / denom
+            }
         }
 
         let big_ratio = div_ceil(8 * len as i32 - 4 * sf + 28 + 16 - 20 * h, 4 * (sf - 2 * de));
